@@ -89,6 +89,15 @@ func (w *vfCWorld) Send(c *vrpc.Client, call *vrpc.Call) {
 		vrpc.Complete(call)
 		return
 	}
+	if h, ok := call.Args.(*ClusterHealth); ok {
+		// what a leader tells its followers must agree with itself: the signature is the one of
+		// the ring made of the listed nodes (followers rebuild their ring from the list)
+		probe := &Cluster{thisNodeName: "probe", nodes: map[string]*ClusterNode{}}
+		probe.rehash(h.Nodes)
+		if probe.ring.Signature() != h.Signature {
+			w.bad("C17:health-check-inconsistent", fmt.Sprintf("leader %s (term %d) announces nodes %v together with the signature of another ring", from, h.Term, h.Nodes), nil)
+		}
+	}
 	if vr, ok := call.Args.(*ClusterVoteRequest); ok {
 		// asking for votes in term T means the candidate voted for itself in T
 		w.grant(from, vr.Term, from, "candidate")
@@ -619,7 +628,10 @@ func (w *vfCWorld) render() []string {
 		tick := 0
 		for _, t := range vsched.Timers() {
 			if t.Owner == "node:"+n && !t.Periodic {
-				tick = 1
+				tick += 1
+			}
+			if t.Owner == "node:"+n && t.Pending > 0 {
+				tick += 10 * t.Pending // a fired heartbeat waiting for the busy run loop
 			}
 		}
 		out = append(out, fmt.Sprintf("%s: term=%d leader=%q missed=%d skipped=%v sig=%s active=[%s] peers=%v hq=%v vq=%v at=%s%s etimer=%d part=%v",
@@ -653,6 +665,7 @@ type vfCConfig struct {
 	MaxTerm int
 	Budget  int // deviations from the default schedule
 	Depth   int
+	Prefix  func(w *vfCWorld) // scripted events before the search starts (not counted)
 }
 
 func vfCExec(cfg func(bool) vfCConfig) func(hist []int, last bool) vfXResult {
@@ -661,6 +674,10 @@ func vfCExec(cfg func(bool) vfCConfig) func(hist []int, last bool) vfXResult {
 		conf := cfg(vfev.Thorough())
 		ops := vfCOps(len(conf.Names))
 		w := vfClusterBoot(conf.Names)
+		if conf.Prefix != nil {
+			conf.Prefix(w)
+			w.cost = 0
+		}
 		prev := w.observe()
 		for i, h := range hist {
 			op := ops[h]
@@ -754,6 +771,74 @@ func init() {
 }
 
 func TestVerifC17Election4(t *testing.T) { vfXSearch(t, "C17", "election4", "c17n4") }
+// vfCPrefixExcluded: a is elected, b is cut off, a declares b dead and the others adopt the
+// reduced ring; then the network heals. The search starts from there.
+func vfCPrefixExcluded(w *vfCWorld) {
+	ops := vfCOps(len(w.names))
+	find := func(kind string, node, slot int) vfCOp {
+		for _, o := range ops {
+			if o.Kind == kind && o.Node == node && o.Slot == slot {
+				return o
+			}
+		}
+		panic("no such op")
+	}
+	drain := func() {
+		for guard := 0; guard < 50 && len(w.inflight) > 0; guard++ {
+			progressed := false
+			for k, m := range w.inflight {
+				if m.phase != 1 {
+					w.apply(find("deliver", 0, k))
+					progressed = true
+					break
+				}
+			}
+			if !progressed {
+				break
+			}
+		}
+	}
+	tickA := find("tick", 0, 0)
+	for i := 0; i < 3; i++ {
+		w.apply(tickA)
+		drain()
+	}
+	w.apply(find("isolate", 1, 0))
+	for i := 0; i < 5; i++ {
+		w.apply(tickA)
+		drain()
+	}
+	w.apply(vfCOp{Kind: "heal"})
+	if w.nodes["a"].fo.leader != "a" {
+		vsched.Fail("harness", "prefix: a is not the leader")
+	}
+}
+
+func init() {
+	n3 := []string{"a", "b", "c"}
+	c3s := func(th bool) vfCConfig {
+		if th {
+			return vfCConfig{Names: n3, MaxTerm: 3, Budget: 3, Depth: 200, Prefix: vfCPrefixExcluded}
+		}
+		return vfCConfig{Names: n3, MaxTerm: 3, Budget: 2, Depth: 200, Prefix: vfCPrefixExcluded}
+	}
+	ops3 := vfCOps(3)
+	vfXModels["c17n3s"] = &vfXModel{Name: "c17n3s", NumOps: len(ops3), OpName: func(i int) string { return ops3[i].name(n3) },
+		Exec: vfCExec(c3s), MaxDepth: func(th bool) int { return c3s(th).Depth }}
+	n4 := []string{"a", "b", "c", "d"}
+	c4s := func(th bool) vfCConfig {
+		if th {
+			return vfCConfig{Names: n4, MaxTerm: 3, Budget: 3, Depth: 200, Prefix: vfCPrefixExcluded}
+		}
+		return vfCConfig{Names: n4, MaxTerm: 3, Budget: 2, Depth: 200, Prefix: vfCPrefixExcluded}
+	}
+	ops4 := vfCOps(4)
+	vfXModels["c17n4s"] = &vfXModel{Name: "c17n4s", NumOps: len(ops4), OpName: func(i int) string { return ops4[i].name(n4) },
+		Exec: vfCExec(c4s), MaxDepth: func(th bool) int { return c4s(th).Depth }}
+}
+
+func TestVerifC17Excluded3(t *testing.T) { vfXSearch(t, "C17", "excluded3", "c17n3s") }
+func TestVerifC17Excluded4(t *testing.T) { vfXSearch(t, "C17", "excluded4", "c17n4s") }
 func TestVerifC17Election3(t *testing.T) { vfXSearch(t, "C17", "election3", "c17n3") }
 func TestVerifC17Election5(t *testing.T) { vfXSearch(t, "C17", "election5", "c17n5") }
 
